@@ -275,7 +275,7 @@ func (p *Property) evalOps(stream string, ops []string, st *streamStats, seen ma
 		mk := func(kind string, m, s string) CaseResult {
 			c := CaseResult{Stream: stream, Op: l, Impl: impl[i], Model: m, Spec: s, Kind: kind}
 			if p.Readable != nil {
-				c.Text = p.Readable(op, args)
+				c.Text = p.readable(op, args)
 			}
 			if p.Classify != nil {
 				c.Key = p.Classify(&c)
@@ -526,7 +526,7 @@ func Run(p *Property, o Options) int {
 					op, args := splitOp(g.ops[k])
 					smp := map[string]string{"stream": s.Name, "op": clip(g.ops[k], 300)}
 					if p.Readable != nil {
-						smp["readable"] = clip(p.Readable(op, args), 300)
+						smp["readable"] = clip(p.readable(op, args), 300)
 					}
 					samples = append(samples, smp)
 				}
@@ -847,4 +847,15 @@ func tieModules(p *Property) []string {
 		}
 	}
 	return out
+}
+
+// readable renders an operation for reports; a renderer that cannot make sense of the
+// arguments must not take the run down.
+func (p *Property) readable(op string, args []string) (out string) {
+	defer func() {
+		if recover() != nil {
+			out = op + " " + strings.Join(args, " ")
+		}
+	}()
+	return p.Readable(op, args)
 }
